@@ -212,7 +212,7 @@ func init() {
 		Sections: func(tier core.Tier, seed int64) []core.Section {
 			n, nf := 3000, 900
 			if tier == core.Thorough {
-				n, nf = 60000, 20000
+				n, nf = 400000, 100000
 			}
 			return []core.Section{
 				{Name: "component-trees", N: n, Run: func(c *core.Ctx, i int) {
